@@ -1,3 +1,4 @@
 //! Generators: choice sequence -> structured specs.
 pub mod headers;
 pub mod modular;
+pub mod stream;
